@@ -81,6 +81,9 @@ func runC15(c *Ctx) {
 	c.Rule("C15.lat-locked", "latency.Latency fields and all window/slot state only under Latency.mu; metadata.Metadata value maps only under Metadata.mu; no re-entrant acquisition, all locks released")
 	c.Rule("C15.slide-all", "window.slide evaluates the aged-out test inside a loop over the slots and can retire more than one slot per call (two aged slots => two subtractions)")
 
+	// every submitted update reaches the function that counts it: the (u,d) dispatch table
+	gnmiDispatch(c, a, "C15.dispatch")
+	storedImmutable(c, "C15.stored-immutable")
 	fn := fnName(gu)
 	pos := P.Pos(gu.Pos())
 	cat := func(evs []string) []string {
@@ -658,4 +661,48 @@ func allFnsOfPkg(f *ssa.Function) map[*ssa.Function]bool {
 		}
 	}
 	return out
+}
+
+// storedImmutable: a notification stored in the tree is read by queries, the size refresh and senders
+// under the node's read lock only; it is replaced as a whole (Leaf.Update / Tree.Add), never written in place.
+func storedImmutable(c *Ctx, rule string) {
+	P := c.P
+	c.Rule(rule, "packages cache and subscribe: no store through a message read out of the tree (root of the address is a (*ctree.Leaf).Value / (*ctree.Tree).GetLeafValue call or the value handed to a tree visitor) - stored notifications are shared with concurrent readers that hold only the node's read lock, so they are replaced whole, never written in place")
+	reads, stores := 0, 0
+	for _, pk := range []string{"cache", "subscribe"} {
+		for _, f := range P.PkgFuncs(pk) {
+			if P.InTestFile(f) {
+				continue
+			}
+			instrs(f, func(in ssa.Instruction) {
+				if call, ok := in.(*ssa.Call); ok {
+					if n := calleeName(&call.Call); n == "(*ctree.Leaf).Value" || n == "(*ctree.Tree).GetLeafValue" {
+						reads++
+					}
+				}
+				st, ok := in.(*ssa.Store)
+				if !ok {
+					return
+				}
+				root, through := addrRoot(st.Addr)
+				if !through {
+					return
+				}
+				stores++
+				fromTree := false
+				switch r := root.(type) {
+				case *ssa.Call:
+					n := calleeName(&r.Call)
+					fromTree = n == "(*ctree.Leaf).Value" || n == "(*ctree.Tree).GetLeafValue"
+				case *ssa.Parameter:
+					// the interface{} value handed to a visitor / condition closure by the tree
+					if _, isIface := r.Type().Underlying().(*types.Interface); isIface && f.Parent() != nil && types.IsInterface(r.Type()) && r.Type().String() == "interface{}" {
+						fromTree = true
+					}
+				}
+				c.Check(!fromTree, rule, fnName(f), "store through a stored message: "+Expr(st.Addr), P.Pos(in.Pos()), "written in place while readers hold only the node's read lock")
+			})
+		}
+	}
+	c.Check(reads >= 2 && stores >= 4, rule, "cache, subscribe", "reads of stored values and field stores inspected", "", fmt.Sprintf("%d reads of stored values, %d stores through pointers", reads, stores))
 }
